@@ -42,6 +42,7 @@ var (
 	crossCheck = flag.Bool("crosscheck", false, "re-run deciding queries of findings on z3-new and cvc5")
 	listOnly   = flag.Bool("list", false, "list harnesses and exit")
 	cpuProf    = flag.String("cpuprofile", "", "write a CPU profile")
+	progress   = flag.Duration("progress", 0, "print exploration progress to stderr at this interval")
 )
 
 const modPath = "github.com/evolbioinfo/goalign"
@@ -169,6 +170,9 @@ func parseDirectives(fn *ssa.Function, h *harnessInfo) {
 				h.cfg.Schedules = v != "0"
 			case "race":
 				h.cfg.RaceDetect = v != "0"
+			case "preempt":
+				n, _ := strconv.Atoi(v)
+				h.cfg.MaxPreempt = n
 			case "maxsteps":
 				n, _ := strconv.ParseInt(v, 10, 64)
 				h.cfg.MaxSteps = n
@@ -276,7 +280,7 @@ func run() int {
 				continue
 			}
 			h := &harnessInfo{fn: fn}
-			h.cfg = interp.Config{Merge: true, MaxSteps: 20_000_000, QueryTimeout: 20000, Known: known}
+			h.cfg = interp.Config{Merge: true, MaxSteps: 20_000_000, QueryTimeout: 20000, Known: known, MaxPreempt: 2}
 			if *tier == "thorough" {
 				h.cfg.QueryTimeout = 120000
 				h.cfg.MaxSteps = 200_000_000
@@ -311,6 +315,11 @@ func run() int {
 	// build the native replay binaries in the background
 	var replayWG sync.WaitGroup
 	rb := &replayBuilder{bins: map[string]string{}, errs: map[string]string{}}
+	for _, h := range hs {
+		if h.cfg.RaceDetect {
+			rb.race = true // the native replay then runs under Go's race detector
+		}
+	}
 	if !*noReplay {
 		dirs := map[string]bool{}
 		for _, h := range hs {
@@ -322,7 +331,7 @@ func run() int {
 			rb.build(dirs)
 		}()
 	}
-	opt := interp.ExploreOpts{Workers: *workers, SolverBin: *solverBin, MaxPaths: *maxPaths, Debug: *debug, Trace: *trace, WitnessPer: 3}
+	opt := interp.ExploreOpts{Workers: *workers, SolverBin: *solverBin, MaxPaths: *maxPaths, Debug: *debug, Trace: *trace, WitnessPer: 3, Progress: *progress}
 	if *deadline > 0 {
 		opt.Deadline = time.Now().Add(*deadline)
 	}
@@ -349,6 +358,7 @@ func run() int {
 // ---------------------------------------------------------------- native replay
 
 type replayBuilder struct {
+	race bool
 	mu   sync.Mutex
 	bins map[string]string
 	errs map[string]string
@@ -410,7 +420,11 @@ func (rb *replayBuilder) build(dirs map[string]bool) {
 		go func(d string) {
 			defer wg.Done()
 			bin := filepath.Join(bdir, strings.ReplaceAll(d, "/", "_")+".test")
-			cmd := exec.Command("go", "test", "-c", "-tags", "verif", "-vet=off", "-overlay", ovPath, "-o", bin, "./"+d)
+			args := []string{"test", "-c", "-tags", "verif", "-vet=off", "-overlay", ovPath, "-o", bin}
+			if rb.race {
+				args = append(args, "-race")
+			}
+			cmd := exec.Command("go", append(args, "./"+d)...)
 			cmd.Dir = *repo
 			cmd.Env = append(os.Environ(), "GOFLAGS=-mod=mod", "GOPROXY=off", "GOSUMDB=off", "GOTOOLCHAIN=local")
 			out, err := cmd.CombinedOutput()
@@ -475,6 +489,7 @@ type replayResult struct {
 	Reached  []string `json:"reached"`
 	Observed []string `json:"observed"`
 	ExitCode int      `json:"-"`
+	Race     bool     `json:"-"`
 	Raw      string   `json:"-"`
 }
 
@@ -485,7 +500,11 @@ func (rb *replayBuilder) run(dir, replayFile string, knownKeys []string, watchdo
 	}
 	// run under an address-space limit so that an out-of-memory class failure shows up as a
 	// fatal error of the test binary instead of exhausting the machine
-	cmd := exec.Command("bash", "-c", "ulimit -v 6000000; exec \"$0\" \"$@\"", bin, "-test.run", "^TestVerifReplay$", "-test.v", "-test.timeout", "120s")
+	limit := "ulimit -v 6000000; "
+	if rb.race {
+		limit = "" // the race detector reserves a huge shadow address space
+	}
+	cmd := exec.Command("bash", "-c", limit+"exec \"$0\" \"$@\"", bin, "-test.run", "^TestVerifReplay$", "-test.v", "-test.timeout", "120s")
 	cmd.Dir = filepath.Join(*repo, dir)
 	if _, err := os.Stat(cmd.Dir); err != nil {
 		cmd.Dir = *repo
@@ -494,6 +513,7 @@ func (rb *replayBuilder) run(dir, replayFile string, knownKeys []string, watchdo
 		"VERIF_WATCHDOG="+watchdog.String())
 	out, err := cmd.CombinedOutput()
 	res := &replayResult{Raw: string(out)}
+	res.Race = strings.Contains(string(out), "WARNING: DATA RACE")
 	for _, l := range strings.Split(string(out), "\n") {
 		if strings.HasPrefix(l, "VERIF-RESULT ") {
 			if e := json.Unmarshal([]byte(strings.TrimPrefix(l, "VERIF-RESULT ")), res); e == nil {
